@@ -219,3 +219,7 @@ def check(cx):
     cx.include(c13, {"C13.1"}, "C03.8", "shared with C13.1: VACUUM, which forgets the aborted ids, must judge a deleted row by the fate of "
                "its deleter and persist the removal of a rolled-back deletion mark; otherwise a rolled-back DELETE takes effect "
                "after the next VACUUM", floor=3)
+
+    # ---- C03.9 (construct shared with C04.1b) -----------------------------------------------------------------------
+    cx.include(c04, {"C04.1b"}, "C03.9", "shared with C04.1b: every new snapshot carries the complete aborted set; a filtered set makes "
+               "the writes of a rolled-back transaction visible", floor=4)
